@@ -325,7 +325,7 @@ def unit(unit):
             by[o.backend] = by.get(o.backend, 0) + 1
     return dict(unit=unit, status=status, error=err, kinds=kinds, obligations=len(obs),
                 proved=sum(o.status == "proved" for o in obs),
-                failed=[o.as_dict() for o in obs if o.status == "failed"][:12],
+                failed=core.failed_sample(obs, 12),
                 nfailed=sum(o.status == "failed" for o in obs), unknown=sum(o.status == "unknown" for o in obs),
                 undecided_notes=run.undecided[:5], stats=run.stats.as_dict(), by_backend=by,
                 wall_s=round(time.time() - t0, 2))
@@ -437,7 +437,7 @@ def unit_hooks_history(unit):
                                        detail=None if ok else f"{bytes(body).hex()} after {bytes(other).hex()}: {why}",
                                        model=None if ok else dict(bytes=bytes(body).hex(), history=bytes(other).hex())))
     return dict(unit=unit, status="ok", error=None, kinds={"samples": n}, obligations=len(obs),
-                proved=sum(o.status == "proved" for o in obs), failed=[o.as_dict() for o in obs if o.status == "failed"][:6],
+                proved=sum(o.status == "proved" for o in obs), failed=core.failed_sample(obs, 6),
                 nfailed=sum(o.status == "failed" for o in obs), unknown=0, undecided_notes=[], stats=dict(paths=0, queries=0, solver_s=0.0),
                 by_backend={"enumeration": sum(o.status == "proved" for o in obs)}, wall_s=round(time.time() - t0, 2), bounded=True)
 
